@@ -147,6 +147,32 @@ fn io_v(file: &str, stage: &str, describe: &dyn Fn() -> String, e: io::Error) ->
     Violation::new(format!("file={file} stage={stage} symptom=error kind={:?}", e.kind()), describe(), "Ok", e.to_string())
 }
 
+fn via(flavour: usize, span: u64) -> &'static str {
+    match span {
+        1 | 2 => "REF",
+        _ => {
+            if flavour == 0 {
+                "END"
+            } else {
+                "SVLEN"
+            }
+        }
+    }
+}
+
+fn end_err(file: &str, flavour: usize, want: Option<&Rec>, describe: &dyn Fn() -> String, e: io::Error) -> Violation {
+    let (v, fields) = match want {
+        Some(w) => (via(flavour, w.span), format!("record POS {} span fields {:?}; ", w.start, span_fields(flavour, w))),
+        None => ("?", String::new()),
+    };
+    Violation::new(
+        format!("file={file} stage=span symptom=variant_end-error via={v} fileformat={:?} kind={:?}", file_format(flavour), e.kind()),
+        format!("{fields}{}", describe()),
+        "Ok(end)",
+        e.to_string(),
+    )
+}
+
 fn scan_one(
     file: &str,
     n: usize,
@@ -171,16 +197,7 @@ fn scan_one(
     }
     let mine = model_end(flavour, want.start, want.span);
     if theirs != mine {
-        let via = match want.span {
-            1 | 2 => "REF",
-            _ => {
-                if flavour == 0 {
-                    "END"
-                } else {
-                    "SVLEN"
-                }
-            }
-        };
+        let via = via(flavour, want.span);
         return Err(Violation::new(
             format!("file={file} stage=span symptom=variant_end-differs-from-spec via={via} fileformat={:?}", file_format(flavour)),
             format!("record POS {} span fields {:?}; {}", want.start, span_fields(flavour, want), describe()),
@@ -203,7 +220,7 @@ pub fn scan_vcf(bytes: &[u8], recs: &[Rec], flavour: usize, describe: &dyn Fn() 
             Err(e) => return Err(io_v("vcf", "scan-record", describe, e)),
         }
         let start = rec.variant_start().transpose().map_err(|e| io_v("vcf", "scan-start", describe, e))?.map(|p| usize::from(p) as u64);
-        let end = rec.variant_end(&header).map_err(|e| io_v("vcf", "scan-end", describe, e))?;
+        let end = rec.variant_end(&header).map_err(|e| end_err("vcf", flavour, recs.get(n), describe, e))?;
         let ids = rec.ids();
         let id: &str = ids.as_ref();
         scan_one("vcf", n, recs, flavour, id.as_bytes(), rec.reference_sequence_name(), start, usize::from(end) as u64, describe)?;
@@ -227,7 +244,7 @@ pub fn scan_bcf(bytes: &[u8], recs: &[Rec], flavour: usize, describe: &dyn Fn() 
             Err(e) => return Err(io_v("bcf", "scan-record", describe, e)),
         }
         let start = rec.variant_start().transpose().map_err(|e| io_v("bcf", "scan-start", describe, e))?.map(|p| usize::from(p) as u64);
-        let end = rec.variant_end(&header).map_err(|e| io_v("bcf", "scan-end", describe, e))?;
+        let end = rec.variant_end(&header).map_err(|e| end_err("bcf", flavour, recs.get(n), describe, e))?;
         let chrom = rec.reference_sequence_name(header.string_maps()).map_err(|e| io_v("bcf", "scan-chrom", describe, e))?.to_string();
         let ids = rec.ids();
         let id: &[u8] = ids.as_ref();
@@ -315,6 +332,7 @@ where
     let index_names: Option<Vec<Vec<u8>>> =
         index.header().map(|h| h.reference_sequence_names().iter().map(|n| n.to_vec()).collect());
     let mut all = Vec::new();
+    let mut unknown_ref = false;
     for rid in 0..n_refs {
         let name = format!("sq{rid}");
         let pts = model::region_points(ms as u32, d as u32, recs, rid, u64::MAX);
@@ -377,7 +395,7 @@ where
                 // a tabix-style index only knows the reference names that occur in records; asking for
                 // another name is outside its domain (InvalidInput) and a full scan keeps nothing there
                 if index_rid.is_none() && exp.is_empty() && e.kind() == io::ErrorKind::InvalidInput {
-                    ch.tag("reference-unknown-to-index(rejected)");
+                    unknown_ref = true;
                     continue;
                 }
                 return Err(Violation::new(
@@ -391,8 +409,7 @@ where
                 st.nonempty += 1;
             }
             if let Some(ir) = index_rid {
-                let (a, _) = reg.bounds();
-                if ir < index.reference_sequences().len() && u64::from(index.reference_sequences()[ir].min_offset(ms, d, pos(a))) > 0 {
+                if ir < index.reference_sequences().len() && model::pruning_removed_chunks(index, ir, reg) {
                     st.pruned += 1;
                 }
             }
@@ -412,5 +429,8 @@ where
         }
     }
     ch.obs_hash(&all);
+    if unknown_ref {
+        ch.tag("reference-unknown-to-index(rejected)");
+    }
     Ok(st)
 }
